@@ -250,6 +250,16 @@ Theorem C06_special_members : forall explicit macro iface f1 f2 f3 this,
 Proof. exact P_vsc_members. Qed.
 Print Assumptions C06_special_members.
 
+(* construction from an rvalue is a copy (no move members exist); std::swap exchanges buffer size and interface identity,
+   both objects end up with fresh communicators *)
+Theorem C06_move_and_swap : forall a b f1 f2 f3,
+  (vsc_buf (c06_vsc_move a f1) = vsc_buf a /\ vsc_iface (c06_vsc_move a f1) = vsc_iface a /\ vsc_comm (c06_vsc_move a f1) = f1) /\
+  (let (a', b') := c06_vsc_swap a b f1 f2 f3 in
+   vsc_buf a' = vsc_buf b /\ vsc_iface a' = vsc_iface b /\ vsc_buf b' = vsc_buf a /\ vsc_iface b' = vsc_iface a /\
+   vsc_comm a' = f2 /\ vsc_comm b' = f3).
+Proof. exact P_vsc_move_swap. Qed.
+Print Assumptions C06_move_and_swap.
+
 (* the fixedSize scalar and the size/data messages use different tags (re-read from the source on every run), which is
    what allows the model to keep them on separate channels; send and receive side of each channel agree on the tag *)
 Theorem C06_tags_distinct : c06_channels_separate = true.
